@@ -64,6 +64,7 @@ func vIdentSXopt(i *vIdent) vsx {
 
 func driveC01(t *testing.T, out *vEmitter) {
 	vC01HtpasswdReload(t, out)
+	vC01BearerSequence(t, out)
 	vKeys()
 	htp := vWriteFile("c01-htpasswd", "htuser:{SHA}"+vB64Std(vSHA1([]byte("htpass")))+"\n")
 	variants := []vC01Variant{
@@ -548,5 +549,53 @@ func vC01Case(out *vEmitter, e *vEnv, v vC01Variant, redis bool, c vCred, target
 			out.Violation("access/unexpected-refusal-form", "an unauthenticated request was answered with something other than a sign-in page, a redirect to the provider or 401/403",
 				map[string]interface{}{"variant": v.name, "redis": redis, "credential": c.label, "target": target, "class": class})
 		}
+	}
+}
+
+// vC01BearerSequence: a bearer token that verifies but whose OWN claims fail the e-mail / group rules is refused
+// whatever was presented before it: an authorised token of the same issuer, of the other issuer, or nothing.
+func vC01BearerSequence(t *testing.T, out *vEmitter) {
+	vKeys()
+	e := vNewEnv(t, vEnvCfg{oidc: true, extraJWT: true, mod: func(o *options.Options) {
+		o.SkipJwtBearerTokens = true
+		o.EmailDomains = []string{"example.com"}
+		o.Providers[0].AllowedGroups = []string{"admins"}
+		o.Providers[0].OIDCConfig.InsecureSkipNonce = true
+	}})
+	full := map[string]interface{}{"groups": []interface{}{"admins"}, "preferred_username": "alice.admin", "email_verified": true}
+	sparse := map[string]interface{}{"email": nil, "groups": nil, "preferred_username": nil, "email_verified": nil, "sub": "mallory"}
+	type tk struct{ label, raw string }
+	good := []tk{{"own/full", vJWT(vKeyRSA, "RS256", vClaims("alice@example.com", full))}, {"extra/full", vJWT(vKeyRSA, "RS256", vClaims2("alice@example.com", full))}}
+	bad := []tk{{"own/sparse", vJWT(vKeyRSA, "RS256", vClaims("x", sparse))}, {"extra/sparse", vJWT(vKeyRSA, "RS256", vClaims2("x", sparse))},
+		{"extra/other-domain-no-groups", vJWT(vKeyRSA, "RS256", vClaims2("mallory@evil.test", map[string]interface{}{"groups": nil}))}}
+	ask := func(raw, target string) *vResult {
+		req, err := vRawRequest(vBuildRaw("GET", target, "app.example.com", [][2]string{{"Authorization", "Bearer " + raw}}, ""))
+		if err != nil {
+			t.Fatal(err)
+		}
+		return e.serve(req)
+	}
+	served := 0
+	for _, g := range append([]tk{{"nothing", ""}}, good...) {
+		for _, b := range bad {
+			for _, target := range []string{"/", "/oauth2/auth", "/oauth2/auth?allowed_groups=admins", "/oauth2/userinfo"} {
+				if g.raw != "" {
+					if r := ask(g.raw, target); r.Hit() || r.Status == 202 || r.Status == 200 {
+						served++
+					}
+				}
+				r := ask(b.raw, target)
+				disclosed := r.Hit() || r.Status == 202 || (r.Status == 200 && strings.Contains(r.Body, "\"email\""))
+				out.Obs("bearer-sequence", true, vL(vS(g.label), vS(b.label), vS(target), vI(int64(r.Status)), vBool(disclosed)))
+				out.Stat("bearer_sequence_requests", 1)
+				if disclosed {
+					out.Violation("access/disclosure-without-credential", "a request was forwarded upstream, answered 202 or given user info without a valid, authorised credential or a bypass",
+						map[string]interface{}{"credential": "bearer " + b.label, "presented_before": g.label, "target": target, "status": r.Status, "body": r.Body})
+				}
+			}
+		}
+	}
+	if served == 0 {
+		t.Fatalf("the authorised bearer tokens were never served: the sequence checks nothing")
 	}
 }
